@@ -191,10 +191,11 @@ def build(body: Body, alpha: Alphabet, fx=None, depth=0, _prefix=(), _sinks=None
                 n.add(cur, "cancel", cancel_s, loc)
         elif k == "drop":
             dl = None
-            if len(t["p"]) == 1 and alpha.drop_types and t["p"][0] not in body.must_moved_at_term().get(bi, set()):
+            if len(t["p"]) == 1 and alpha.drop_types:
                 for sub, lab in alpha.drop_types:
                     if sub in t.get("ty", ""):
-                        dl = "drop:" + lab
+                        if not body.drop_is_noop_for(bi, t["p"][0], lambda ty: any(s2 in ty for s2, l2 in alpha.drop_types if l2 == lab)):
+                            dl = "drop:" + lab
                         break
             n.add(cur, dl, tgt(t["target"]), loc)
             if t["unwind"] is not None:
